@@ -6,14 +6,16 @@ From Ford Require Import Base.Str Out.Names Lex.Mask Gen.EscapeSites Out.Escape.
 
 Definition nb : ascii := "~"%char.
 
+(* [lw] in the cases below: the project option `lower` (the statement is lower-cased after its literals
+   have been cut out, so literal bodies stay as written whatever the option says) *)
 Inductive case :=
-| CMask (line masked : str) (strs : list str)
+| CMask (lw : bool) (line masked : str) (strs : list str)
     (* the statement as written; what line_to_variables received: the masked statement and parent.strings *)
-| CInitial (prefix expr : str) (out : option str)
+| CInitial (lw : bool) (prefix expr : str) (out : option str)
     (* var.initial of the single declarator of the statement prefix ++ expr (prefix ends with the equals sign) *)
-| CParamStmt (name expr : str) (out : option str)
+| CParamStmt (lw : bool) (name expr : str) (out : option str)
     (* var.initial after the statement PARAMETER (name = expr) *)
-| CSelector (pre sel post : str) (out : option str)
+| CSelector (lw : bool) (pre sel post : str) (out : option str)
     (* the kind / length selector sel of the statement pre ++ sel ++ post (a declaration, or a typed FUNCTION
        statement whose prefix is parsed with the line's literal table), as stored in kind / strlen *)
 | CEscape (x out : str)                       (* the e filter of FORD's Jinja environment *)
@@ -36,29 +38,46 @@ Definition squash (x : str) : str := squash_from None x.
 
 Definition has_quote (x : str) : bool := existsb is_quote x.
 
-Definition model_initial (prefix expr : str) : option str :=
+(* lower-case the code outside character literals *)
+Fixpoint lower_from (q : option ascii) (x : str) : str :=
+  match x with
+  | [] => []
+  | c :: x' =>
+    match q with
+    | None => if is_quote c then c :: lower_from (Some c) x' else lower_ch c :: lower_from None x'
+    | Some d => c :: lower_from (if ch_eqb c d then None else q) x'
+    end
+  end.
+Definition lower_outside (x : str) : str := lower_from None x.
+Definition maybe_lower (lw : bool) (x : str) : str := if lw then lower x else x.
+(* the comparison the property asks for: literal bodies verbatim; code outside literals exactly as written,
+   or up to letter case when `lower` is on *)
+Definition same_text (lw : bool) (a b : str) : bool :=
+  if lw then str_eqb (lower_outside a) (lower_outside b) else str_eqb a b.
+
+Definition model_initial (lw : bool) (prefix expr : str) : option str :=
   match mask (prefix ++ expr) with
-  | Some (m, strs) => initial_of nb strs (skipn (length prefix) m)
+  | Some (m, strs) => initial_of nb strs (maybe_lower lw (skipn (length prefix) m))
   | None => None
   end.
 
 (* PARAMETER (name = expr): the text after the equals sign is formatted like an initial value given
    on the declaration -- blanks removed, a blank after each comma, then the literals put back
    (_restore_strings: NBSP substitution included) *)
-Definition model_param (name expr : str) : option str :=
+Definition model_param (lw : bool) (name expr : str) : option str :=
   let prefix := s "parameter (" ++ name ++ s " = " in
   match mask (prefix ++ expr ++ s ")") with
-  | Some (m, strs) => initial_of nb strs (removelast (skipn (length prefix) m))
+  | Some (m, strs) => initial_of nb strs (maybe_lower lw (removelast (skipn (length prefix) m)))
   | None => None
   end.
 
 (* parse_type: white space removed from the parenthesised selectors, literals put back afterwards
    (_restore_strings, NBSP substitution included); pre and post carry no literals *)
-Definition model_selector (pre sel post : str) : option str :=
+Definition model_selector (lw : bool) (pre sel post : str) : option str :=
   match mask (pre ++ sel ++ post) with
   | Some (m, strs) =>
       let msel := firstn (length m - length pre - length post) (skipn (length pre) m) in
-      unmask_in (nbsp_sub nb) strs (remove_spaces msel)
+      unmask_in (nbsp_sub nb) strs (remove_spaces (maybe_lower lw msel))
   | None => None
   end.
 
@@ -66,25 +85,28 @@ Definition opt_str_eqb := opt_eqb str_eqb.
 
 Definition judge (k : case) : nat :=
   match k with
-  | CMask line masked strs =>
-      verdict (negb (opt_eqb (pair_eqb str_eqb (list_eqb str_eqb)) (mask line) (Some (masked, strs))))
-              (negb (opt_str_eqb (unmask_in (fun x => x) strs masked) (Some line))) 0
-  | CInitial prefix expr out =>
-      verdict (negb (opt_str_eqb (model_initial prefix expr) out))
+  | CMask lw line masked strs =>
+      verdict (negb (opt_eqb (pair_eqb str_eqb (list_eqb str_eqb))
+                       (match mask line with Some (m, l) => Some (maybe_lower lw m, l) | None => None end)
+                       (Some (masked, strs))))
+              (negb (opt_str_eqb (unmask_in (fun x => x) strs masked)
+                                 (Some (if lw then lower_outside line else line)))) 0
+  | CInitial lw prefix expr out =>
+      verdict (negb (opt_str_eqb (model_initial lw prefix expr) out))
               (match out with
-               | Some o => negb (str_eqb (squash (un_nbsp nb o)) (squash expr))
+               | Some o => negb (same_text lw (squash (un_nbsp nb o)) (squash expr))
                | None => true
                end) 0
-  | CParamStmt name expr out =>
-      verdict (negb (opt_str_eqb (model_param name expr) out))
+  | CParamStmt lw name expr out =>
+      verdict (negb (opt_str_eqb (model_param lw name expr) out))
               (match out with
-               | Some o => negb (str_eqb (squash (un_nbsp nb o)) (squash expr))
+               | Some o => negb (same_text lw (squash (un_nbsp nb o)) (squash expr))
                | None => true
                end) 0
-  | CSelector pre sel post out =>
-      verdict (negb (opt_str_eqb (model_selector pre sel post) out))
+  | CSelector lw pre sel post out =>
+      verdict (negb (opt_str_eqb (model_selector lw pre sel post) out))
               (match out with
-               | Some o => negb (str_eqb (squash (un_nbsp nb o)) (squash sel))
+               | Some o => negb (same_text lw (squash (un_nbsp nb o)) (squash sel))
                | None => true
                end) 0
   | CEscape x out =>
